@@ -1,6 +1,7 @@
 import Txtpp.Lemmas.SinkFacts
 import Txtpp.Lemmas.Hermetic
 import Txtpp.Lemmas.PassRel
+import Txtpp.Lemmas.ProjectRel
 /-!
 # Property C08 — builds are a function of the sources only (hermetic, idempotent)
 -/
@@ -133,5 +134,50 @@ example (cfg : Cfg) (fs0 : FS) (p : Path) (h : fs0.resolve cfg [] ['x'] = some p
   simp [dirReads, h] at hq
   subst hq
   simp [staleAfterDir, dirWrites, hx, h]
+
+/-- **whole project: leftovers are irrelevant.** Two trees that differ only inside `S` (what earlier or
+interrupted runs left behind: stale text, truncated files, arbitrary bytes, nothing) and hold the same
+sources give the same verdict under the whole run `Txtpp::run` (input resolution, directory scans,
+coordinator, every pass of every file, dependencies included), and afterwards differ at most inside the
+stale set `projStale` carries along the run of the first tree — the executable side condition: at every
+pass, no executed block reads a path that is still stale; a first pass owes nothing for the dependency
+directive it stops at. -/
+theorem whole_project_leftovers_irrelevant (cfg : Cfg) (hm : cfg.mode = .build ∨ cfg.mode = .inMemory) (a b : FS)
+    (inputs : List Str) (S Sfin : List Path) (hag : Agree S a b) (hsrcs : srcPaths a = srcPaths b)
+    (hres : resolveInputs cfg a inputs = resolveInputs cfg b inputs)
+    (hst : projStale cfg (trSame cfg) a inputs S = some Sfin)
+    (hfa : (runProject cfg a inputs).1 ≠ .outOfFuel) (hfb : (runProject cfg b inputs).1 ≠ .outOfFuel) :
+    (runProject cfg a inputs).1 = (runProject cfg b inputs).1 ∧
+    Agree Sfin (runProject cfg a inputs).2 (runProject cfg b inputs).2 :=
+  project_runs_agree cfg hm a b inputs S Sfin hag hres (scanAll_congr a b cfg.recursive hag.1 hsrcs) hst hfa hfb
+
+/-- … in particular, when nothing is stale at the end (`projStale … = some []`: every stale path was
+regenerated by a pass that ended `ok`), the two runs leave the same bytes at *every* path -/
+theorem whole_project_same_result (cfg : Cfg) (hm : cfg.mode = .build ∨ cfg.mode = .inMemory) (a b : FS)
+    (inputs : List Str) (S : List Path) (hag : Agree S a b) (hsrcs : srcPaths a = srcPaths b)
+    (hres : resolveInputs cfg a inputs = resolveInputs cfg b inputs)
+    (hst : projStale cfg (trSame cfg) a inputs S = some [])
+    (hfa : (runProject cfg a inputs).1 ≠ .outOfFuel) (hfb : (runProject cfg b inputs).1 ≠ .outOfFuel) :
+    (runProject cfg a inputs).1 = (runProject cfg b inputs).1 ∧
+    ∀ q, (runProject cfg a inputs).2.file? q = (runProject cfg b inputs).2.file? q := by
+  have h := whole_project_leftovers_irrelevant cfg hm a b inputs S [] hag hsrcs hres hst hfa hfb
+  exact ⟨h.1, fun q => h.2.2 q (by simp)⟩
+
+/-- **whole project: building twice equals building once.** `a'` is the tree a successful run leaves;
+`S` covers what that run changed. A second run from `a'` succeeds and leaves every path as it was. -/
+theorem whole_project_build_twice_eq_once (cfg : Cfg) (hm : cfg.mode = .build ∨ cfg.mode = .inMemory) (a a' : FS)
+    (inputs : List Str) (S : List Path) (h1 : runProject cfg a inputs = (.ok, a')) (hag : Agree S a a')
+    (hsrcs : srcPaths a = srcPaths a') (hres : resolveInputs cfg a inputs = resolveInputs cfg a' inputs)
+    (hst : projStale cfg (trSame cfg) a inputs S = some [])
+    (hfb : (runProject cfg a' inputs).1 ≠ .outOfFuel) :
+    (runProject cfg a' inputs).1 = .ok ∧ ∀ q, (runProject cfg a' inputs).2.file? q = a'.file? q := by
+  have h := whole_project_same_result cfg hm a a' inputs S hag hsrcs hres hst (by rw [h1]; simp) hfb
+  rw [h1] at h
+  exact ⟨h.1.symm, fun q => (h.2 q).symm⟩
+
+/-- the per-pass ingredient, first-pass aware: the old side condition `Safe` implies the new one -/
+theorem first_pass_owes_nothing_after_its_dependency (cfg : Cfg) (fs0 : FS) (wd : Path) (d : Directive) (e : Bool)
+    (bs : List (Refine.Block Directive)) (S Sfin : List Path) (hdep : isDepB cfg fs0 wd d = true) :
+    SafeTo cfg fs0 wd true (Refine.Block.dir d e :: bs) S Sfin := Or.inl ⟨rfl, hdep⟩
 
 end C08
